@@ -266,14 +266,17 @@ OpReported(p, n) == n \notin (OpRow(p).ctx \cup OpRow(p).fns)
      cmp    W(W(NAME) == 'x')             deep   W('x')[format('{0}', toJSON(NAME))].y
      lower  W(name in lower case)         mixed  W(NaMe)
      text   pre-${{ W(NAME) }}-post       second ${{ 'x' }}${{ W(NAME) }}      (template strings only)
-     direct NAME(...)                     (special functions only, where a bool/string fits)      *)
+     direct NAME(...)                     (special functions only, where a bool/string fits)
+     ternary W(NAME) && W('a') || W('b')  nand   !(W(NAME) && W('a')) && W('b')    (the cond && x || y idiom:
+                                          the checker narrows types there and must still visit every operand)   *)
 \* a lone ${{ }} at `runs-on` / `labels` is type-checked (string or array): a bare bool call does not fit
 TypedWhenSingle(p) == p.path \in {<<"jobs", J, "runs-on">>, <<"jobs", J, "runs-on", "labels">>}
 AllEmbeddings == {"wrap", "upper", "and", "or", "arg", "index", "not", "cmp", "deep", "lower", "mixed",
-                  "text", "second", "direct"}
+                  "text", "second", "direct", "ternary", "nand"}
 EmbOK(p, n, e) ==
   /\ e \in Embeddings
   /\ e \in {"text", "second"} => p.form = "tmpl"
+  /\ e = "nand" => p.form # "cond"        \* a bare `if: !(...)` would be a YAML tag
   /\ e = "direct" => n \in SpecialFns /\ p.form \in {"tmpl", "cond"} /\ ~TypedWhenSingle(p)
 
 AbsentKeys ==
